@@ -158,7 +158,11 @@ Proof. exact dec_cells_refine_values. Qed.
 Print Assumptions C12_dec_cells_refine_values.
 Theorem C12_bigint_cells_refine_values :
   nonmut_spec BI_Add Z.add fits1024 false /\ nonmut_spec BI_Sub Z.sub fits1024 false /\
-  nonmut_spec BI_Quo Z.quot always_fits true /\ nonmut_spec BI_Mod emod always_fits true.
+  nonmut_spec BI_Quo Z.quot always_fits true /\ nonmut_spec BI_Mod emod always_fits true /\
+  (forall h d d2, (d < next h)%nat -> (d2 < next h)%nat -> bitlen (rd h d) <= max_bit_len -> bitlen (rd h d2) <= max_bit_len ->
+     spec (BI_Mul d d2) h
+       (fun h' r => (next h <= r)%nat /\ obs_of (Ok h' r) = expected Z.mul fits1024 false (rd h d) (rd h d2))
+       (fun e h' => obs_of (Panic e h') = expected Z.mul fits1024 false (rd h d) (rd h d2))).
 Proof. exact bigint_cells_refine_values. Qed.
 Print Assumptions C12_bigint_cells_refine_values.
 
